@@ -74,6 +74,25 @@ def run_one(c, env, clk):
     api = c["api"]
     a = c.get("args", {})
     s = c["seed"]
+    if api == "threads_interleaved":
+        from sim import threads as st
+
+        subs = c["subs"]
+        alone = [run_one(dict(sc), env, clk) for sc in subs]
+        sched = st.Scheduler(st.WalkChooser(random.Random(prng.H(env["pool_seed"], c["id"])), a.get("switch_p", 0.05)),
+                             lambda base, name, full: "cotengra" in full, max_points=20_000_000)
+        got = [None] * len(subs)
+
+        def mk(i):
+            def body():
+                got[i] = run_one(dict(subs[i]), env, clk)
+            return body
+
+        errs = sched.run([mk(i) for i in range(len(subs))], [101 + i for i in range(len(subs))], [None] * len(subs))
+        for i, e in enumerate(errs):
+            if e is not None:
+                got[i] = "EXC " + type(e).__name__ + ": " + str(e)[:200]
+        return {"plain": alone, "interleaved": got, "same": canon(alone) == canon(got)}
     if api == "reusable_rgreedy_history":
         from cotengra.pathfinders.path_basic import ReusableRandomGreedyOptimizer
 
